@@ -174,19 +174,21 @@ CLAIMED = {
              "signals up to t only (causality); (2) on the algorithms: the online operation classes (buffers, the online "
              "intersection with remainders and its pending sample, pending segments and residual_start of the bounded operators) "
              "are mirrored with their state as values (Rtamt/Dense/AlgOn.lean), and for every specification of the fragment "
-             "(variables, unary and binary point-wise operations with at most one constant operand, unbounded and bounded "
-             "once/historically, any nesting), all well-formed signals starting at 0 and EVERY cutting of them into successive "
+             "(everything the online monitor accepts: variables, unary and binary point-wise operations with at most one constant "
+             "operand, unbounded and bounded once/historically/since, any nesting), all well-formed signals starting at 0 and EVERY "
+             "cutting of them into successive "
              "update() calls (per variable consecutive, possibly empty pieces) the concatenated output has non-decreasing time "
              "stamps and equals rhoD at every time it covers, raises nothing, and two chunkings never disagree "
              "(C05_online_mirror_partial, C05_online_total_partial, C05_chunkings_agree_partial). The proof attempt found the "
-             "genuine defect F48 (nested bounded operators fed in several updates), repaired by a fix: commit. Correspondence: the "
+             "genuine defect F48 (nested bounded operators fed in several updates), repaired by a fix: commit; extending it showed "
+             "that the known finding F32 (online since) had been repaired by an earlier fix, and F30 (two constants) was repaired "
+             "too: no region of C05 is excluded any more. Correspondence: the "
              "real update() vs the mirror (every list every call returns, sample by sample) and vs rhoD for, per generated "
              "(specification, signals), all chunkings at the input time stamps (up to 64; thorough 512) plus per-variable "
              "chunkings, nested bounded operators on grid-spaced signals, and modular specifications under the chunkings.",
         note="Lean kernel + standard axioms; the mirror is hand-written and tied to the code by exact correspondence of the returned "
-             "lists (no translator); the theorem leaves out since / since[a,b] (known finding F32), operations on two constants "
-             "(F30) and signals not starting at 0 (F37), which are excluded by region in the comparison with rhoD but not in the "
-             "comparison with the mirror.",
+             "lists (no translator); the theorem leaves out constant-valued sub-formulas other than a constant operand of a binary "
+             "point-wise operation, and signals not starting at 0 (F37).",
         technique="Lean 4 proof (stream invariants of the online operation classes; structural induction over the specification, "
                   "induction over the updates) + differential correspondence against the mirror and the proved semantics over "
                   "exhaustive small-scope chunkings",
